@@ -29,7 +29,8 @@ open Impl.Tickets
 
 /-- what the translator read from the source: "ticket" makes a type non-duplicable / non-pushable / non-comparable,
 split rejects a zero part, split and join keep the ticket's class, `BigMapType.get` honours `dup`, DUP / DUP n check the
-duplicability of a big_map operand, and the mirrored bodies are the recognised ones -/
+duplicability of a big_map operand, and the mirrored bodies (incl. `BigMapType.update` as repaired for C15) are the
+recognised ones -/
 theorem source_shape :
     Generated.C20.nonDuplicablePrims = some ["ticket"]
       ∧ (Generated.C20.nonPushablePrims.getD []).contains "ticket" = true
@@ -37,7 +38,8 @@ theorem source_shape :
       ∧ Generated.C20.splitRejectsZero = some true ∧ Generated.C20.splitKeepsClass = some true
       ∧ Generated.C20.joinKeepsClass = some true ∧ Generated.C20.bigMapGetHonoursDup = some true
       ∧ Generated.C20.dupChecksBigMap = some true ∧ Generated.C20.duplicateAsserts = true
-      ∧ Generated.C20.mapBodiesRecognised = true ∧ Generated.C20.ticketInstrsRecognised = true := by decide
+      ∧ Generated.C20.mapBodiesRecognised = true ∧ Generated.C20.bigMapUpdateRecognised = true
+      ∧ Generated.C20.ticketInstrsRecognised = true := by decide
 
 theorem cfg_ok : CfgOk cfg := ⟨by decide, by decide, by decide, by decide⟩
 
